@@ -41,12 +41,12 @@ CHECKS = {
          "DESIGN.md §5 C17"),
  "C08": ("mc-graph", "exploration",
          "exhaustive enumeration of generated WIT worlds built into real components; decoded world vs the reference validator's type tables via two independent canonical printers; wrapper-component subtyping for re-encoded dependency types",
-         "Every world of every package of the bounded WIT enumeration (all type declarations x function shapes, dependent declarations, `use` chains of three to five interfaces/diamonds/renames/derived types, world-level use/types/include-with; plus every world of the world-shape product family the reference toolchain accepts; ~5000 components quick) is built into a real component, loaded with Package::from_bytes, and compared with wasmparser's view: import/export names in order, per-item canonical type (kinds, parameter names and order, results, async, value types, resource identity and aliasing through one resource numbering per world), instance type = exports, used-type provenance against type identity in the validator, and - with define_components=false - the original component must be a subtype of the written `unlocked-dep` component type inside one wrapper. The 170-item hand-shaped type universe of C07 (every import kind incl. core modules) and the LibHand components are compared the same way.",
+         "Every world of every package of the bounded WIT enumeration (all type declarations x function shapes, dependent declarations, `use` chains of three to five interfaces/diamonds/renames/derived types, world-level use/types/include-with; plus every world of the world-shape product family the reference toolchain accepts; ~5000 components quick) is built into a real component, loaded with Package::from_bytes, and compared with wasmparser's view: import/export names in order, per-item canonical type (kinds, parameter names and order, results, async, value types, resource identity and aliasing through one resource numbering per world), instance type = exports, used-type provenance against type identity in the validator, and - with define_components=false - the original component must be a subtype of the written `unlocked-dep` component type inside one wrapper. The 231-item hand-shaped type universe of C07 (every import kind incl. core modules) and the LibHand components are compared the same way.",
          "Trusts wasmparser's type tables and the two printers (mc-core e2::Canon / canon_wac). Type shapes are those of the generator.",
          "DESIGN.md §5 C08, §4 E3"),
  "C07": ("mc-graph", "model_checking",
          "exhaustive pair enumeration over a generated type universe against the reference validator's subtype relation + BFS over memo contents",
-         "A type universe (every value-type constructor to depth 2, field/case/param renames and reorderings, arity changes, async, option/result arms, alias chains, instance width/depth, component import/export subsets, core module limits/flags/globals/tags, values; 215 items in both tiers) is generated as the imports of one component; for all ordered pairs of resource-free items SubtypeChecker::is_subtype (fresh memo) must agree with wasmparser's ComponentEntityType::is_subtype_of in the same validator. Functions over own / borrow handles of two fixed imported resources (10 shapes) are compared among themselves the same way (the resources are the same on both sides, so only the structure counts). Reflexivity across two independent decodes, transitivity over all accepted chains, and an explicit-state BFS over memo contents (depth 4 over a 12-pair family sharing sub-terms; every family pair re-probed in every memo state) follow.",
+         "A type universe (every value-type constructor to depth 2, field/case/param renames and reorderings, arity changes, async, option/result arms, alias chains, instance width/depth, component import/export subsets, core module limits/flags/globals/tags, values; 231 items in both tiers) is generated as the imports of one component; for all ordered pairs of resource-free items SubtypeChecker::is_subtype (fresh memo) must agree with wasmparser's ComponentEntityType::is_subtype_of in the same validator. Functions over own / borrow handles of two fixed imported resources (10 shapes) are compared among themselves the same way (the resources are the same on both sides, so only the structure counts). Reflexivity across two independent decodes, transitivity over all accepted chains, and an explicit-state BFS over memo contents (depth 4 over a 12-pair family sharing sub-terms; every family pair re-probed in every memo state) follow.",
          "Trusts wasmparser 0.247's subtype relation, corrected for two known quirks (it ignores table64 and the shared flag of globals; core import matching requires equality there, and wac's pinned tests agree). Apart from the handle family, resources only take part in reflexivity; resourceful argument passing is covered by C01's LibT.",
          "DESIGN.md §5 C07"),
  "C09": ("mc-graph", "model_checking",
